@@ -749,6 +749,8 @@ pub fn oracle_c05_dev(op: &str, outs: &[String]) -> String {
         let mut undecided = false;
         let mut expect_dls: Vec<String> = vec![];
         let mut class_a_accept: Option<u32> = None;
+        let mut listen_heard = 0usize; // frames `rx_continuous` reported to this `rxc_listen`
+        let mut listen_err = false; // … and whether it reported an error before any acceptance
         for c in calls_s.split(';') {
             let radio_call = c.starts_with("tx(") || c.starts_with("srx(") || c == "rxc" || c == "rxs" || c == "lp";
             if !radio_call {
@@ -756,6 +758,15 @@ pub fn oracle_c05_dev(op: &str, outs: &[String]) -> String {
             }
             let item = it.next().copied().unwrap_or("O");
             if stop {
+                continue;
+            }
+            if is_listen && c == "rxc" && item.starts_with('R') {
+                listen_heard += 1;
+            }
+            if is_listen && c == "rxc" && item == "E" {
+                // a radio error ends `rxc_listen` with Err(Radio); nothing after it is heard
+                listen_err = true;
+                stop = true;
                 continue;
             }
             if c.starts_with("srx(") {
@@ -825,6 +836,23 @@ pub fn oracle_c05_dev(op: &str, outs: &[String]) -> String {
             lost = true;
             continue;
         }
+        if is_listen {
+            // the converse for `rxc_listen` (C05.async_listen_accept_iff): it answers Ok(..) ONLY when a frame
+            // heard is authentic, fresh and fits; Err(Mac) iff there is no session and a frame was heard
+            let res = rest.split_whitespace().next().unwrap_or("");
+            if (res == "Err(Radio)") != listen_err && (joined || listen_heard == 0) {
+                return format!("FAIL:listen-answered-{}-radio-error-{}", res, listen_err);
+            }
+            if res.starts_with("Ok(") && (!stop || listen_err) {
+                return format!("FAIL:listen-reported-{}-but-no-frame-was-acceptable", res);
+            }
+            if res == "Err(Mac)" && (joined || listen_heard == 0) {
+                return "FAIL:listen-Err(Mac)-although-joined-or-nothing-heard".into();
+            }
+            if !joined && listen_heard > 0 && res != "Err(Mac)" {
+                return format!("FAIL:listen-without-session-heard-a-frame-and-answered-{}", res);
+            }
+        }
         // `rxc_listen` at the exhausted uplink counter: the acceptance is answered SessionExpired and
         // nothing is delivered (second disjunct of C05.accept_iff)
         if is_listen && rest.contains("SessionExpired") {
@@ -866,9 +894,72 @@ pub fn oracle_c05_dev(op: &str, outs: &[String]) -> String {
     "ok".into()
 }
 
+/// C07 twin oracle for `rxc_listen` (C07.async_listen_rejected_invisible): every frame an `alisten` of a
+/// device with a session heard whose view is not a data frame, or whose MIC verifies under NO counter
+/// (forged, foreign, corrupted — rejected whatever the counters are), is deleted from the script and the
+/// history is run again on the real front-end: the listen's answer and deliveries, and every other output,
+/// must be identical.
+pub fn oracle_c07_listen_twin(op: &str, outs: &[String]) -> String {
+    let (hd, evs) = crate::macsuites::split_events(op);
+    if evs.iter().any(|e| e.starts_with("ajoin")) || !evs.iter().any(|e| e.starts_with("alisten")) {
+        return "ok".into();
+    }
+    let mut twin_evs = evs.clone();
+    let mut touched: Vec<usize> = vec![];
+    let mut joined = false;
+    for (i, ev) in evs.iter().enumerate() {
+        if ev.starts_with("abp") || ev.starts_with("sess") {
+            joined = true;
+        }
+        if !ev.starts_with("alisten") || !joined {
+            continue;
+        }
+        let out = match outs.get(i) {
+            Some(o) => o,
+            None => break,
+        };
+        let n_rxc = out.strip_prefix("calls=").and_then(|s| s.split(" => ").next()).unwrap_or("").split(';').filter(|c| *c == "rxc").count();
+        let script: Vec<&str> = ev.split_once('|').map(|(_, b)| b.split_whitespace().collect()).unwrap_or_default();
+        let mut drop: Vec<usize> = vec![];
+        for (k, t) in script.iter().enumerate().take(n_rxc) {
+            if !t.starts_with('R') {
+                break;
+            }
+            let f: Vec<&str> = t[1..].split('/').collect();
+            let rejected = f.len() < 3 || f[2] != "d" || f.get(6).map(|m| m.parse::<u32>().is_err()).unwrap_or(true);
+            if rejected {
+                drop.push(k);
+            }
+        }
+        if drop.is_empty() {
+            continue;
+        }
+        let kept: Vec<&str> = script.iter().enumerate().filter(|(k, _)| !drop.contains(k)).map(|(_, t)| *t).collect();
+        twin_evs[i] = format!("alisten | {}", kept.join(" "));
+        touched.push(i);
+    }
+    if touched.is_empty() {
+        return "ok".into();
+    }
+    let twin_op = format!("{} ; {}", hd, twin_evs.join(" ; "));
+    let twin = crate::adev::run_history(&twin_op);
+    for i in 0..outs.len().max(twin.len()) {
+        let (a, b) = (outs.get(i).map(|s| s.as_str()).unwrap_or("-"), twin.get(i).map(|s| s.as_str()).unwrap_or("-"));
+        if touched.contains(&i) {
+            let res = |o: &str| o.split(" => ").nth(1).unwrap_or("?").to_string();
+            if res(a) != res(b) {
+                return format!("FAIL:listen-twin-differs-at-{}:{}/{}", i, res(a).replace(' ', "_"), res(b).replace(' ', "_"));
+            }
+        } else if a != b {
+            return format!("FAIL:twin-differs-after-listen-at-{}", i);
+        }
+    }
+    "ok".into()
+}
+
 /// every device-level oracle that applies to the async front-end, in one
 pub fn oracle_dev_all(op: &str, outs: &[String]) -> String {
-    for f in [oracle_c04_dev as fn(&str, &[String]) -> String, oracle_c06_dev, oracle_c10_dev, oracle_c05_dev, oracle_c07_join_twin, oracle_c12_dev_silent, oracle_c20_dev_restore] {
+    for f in [oracle_c04_dev as fn(&str, &[String]) -> String, oracle_c06_dev, oracle_c10_dev, oracle_c05_dev, oracle_c07_join_twin, oracle_c07_listen_twin, oracle_c12_dev_silent, oracle_c20_dev_restore] {
         let r = f(op, outs);
         if r != "ok" {
             return r;
